@@ -124,6 +124,42 @@ def gen(rng, tier):
         if max(n) > 2 ** 62:
             c["input"] = {"f": "tuple", "v": n} if ndim == 2 or kind == "util" else {"f": "int", "v": n}
         cases.append(c)
+    # pairs of 2-d geometries that differ only in WHICH hyper-parameter is given as a scalar and which as a pair (the flattened
+    # numbers coincide): each must be computed from its own arguments, whatever was computed before in this process
+    def npi(v):
+        return {"f": "npint", "v": [v, v], "dt": rng.choice(["int64", "int32"])}
+    def pair(v):
+        return {"f": rng.choice(["tuple", "list", "nd"]), "v": list(v), "dt": "int64"}
+    for _ in range(10 if tier == "quick" else 120):
+        a, b, cc = rng.sample([1, 2, 3], 3) if rng.random() < 0.7 else [rng.choice([1, 2, 3]) for _ in range(3)]
+        n = [rng.randint(20, 40)] * 2 if rng.random() < 0.5 else [rng.randint(20, 40), rng.randint(20, 40)]
+        k = [3, 3]
+        base = {"ndim": 2, "n": n, "k": k, "s": [1, 1], "input": {"f": "tuple", "v": n}, "stride": {"f": "int", "v": [1, 1]},
+                "kernel": {"f": "tuple", "v": k}, "cin": 2, "cout": 4, "pool": "SumPool2d"}
+        x = dict(base, p=[a, a], d=[b, cc], padding=npi(a), dilation=pair([b, cc]))
+        y = dict(base, p=[a, b], d=[cc, cc], padding=pair([a, b]), dilation=npi(cc))
+        order = [x, y] if rng.random() < 0.5 else [y, x]
+        kind = rng.choice(["util", "conv", "infer_conv"])
+        for g in order:
+            cases.append(dict(g, kind=kind))
+        # pooling: kernel scalar / stride pair  versus  kernel pair / stride scalar
+        ks, st2 = rng.choice([2, 3]), rng.choice([1, 2])
+        st1 = rng.choice([v for v in [1, 2, 3] if v != st2])
+        nb = [rng.randint(10, 20)] * 2
+        pb = {"ndim": 2, "n": nb, "p": [0, 0], "d": [1, 1], "input": {"f": "tuple", "v": nb}, "padding": {"f": "tuple", "v": [0, 0]},
+              "dilation": {"f": "int", "v": [1, 1]}, "cin": 3, "cout": 3, "pool": rng.choice(["SumPool2d", "AvgPool2d"]), "kind": "infer_pool"}
+        px = dict(pb, k=[ks, ks], s=[ks, st1], kernel=npi(ks), stride=pair([ks, st1]))
+        py = dict(pb, k=[ks, ks], s=[st1, st1], kernel=pair([ks, ks]), stride=npi(st1))
+        for g in ([px, py] if rng.random() < 0.5 else [py, px]):
+            cases.append(g)
+    # Conv1d called with type arguments already filled in (a copy of a typed node with one field changed): the types must be
+    # derived from input_shape and the hyper-parameters
+    for _ in range(12 if tier == "quick" else 150):
+        ax = axis(rng)
+        n, p, d, k, st = ([v] for v in ax)
+        cases.append({"kind": "conv", "ndim": 1, "n": n, "p": p, "d": d, "k": k, "s": st, "input": {"f": "int", "v": n},
+                      "padding": form_of(rng, p, 1), "dilation": form_of(rng, d, 1), "stride": form_of(rng, st, 1),
+                      "kernel": form_of(rng, k, 1), "cin": 2, "cout": 3, "pool": "SumPool2d", "stale": True})
     return cases
 
 
@@ -146,7 +182,7 @@ def run(c):
     exp = expected(c)
     forms = tuple(x if isinstance(x, str) else (x["f"], x.get("dt")) for x in
                   (c["input"], c["padding"], c["dilation"], c["stride"], c["kernel"]))
-    sig = (c["kind"], tuple(c["n"]), tuple(c["p"]), tuple(c["d"]), tuple(c["k"]), tuple(c["s"]), forms, c["pool"])
+    sig = (c["kind"], tuple(c["n"]), tuple(c["p"]), tuple(c["d"]), tuple(c["k"]), tuple(c["s"]), forms, c["pool"], c.get("stale"))
     nontriv = (c["ndim"] == 2 and c["k"][0] != c["k"][1]) or any(x != 1 for x in c["s"] + c["d"]) or any(c["p"]) \
         or any(f[0] not in ("int",) for f in forms if not isinstance(f, str))
     fail = None
@@ -164,8 +200,11 @@ def run(c):
         return Outcome(coq, fail, nontriv, sig)
     if c["kind"] == "conv":
         r = conv_recipe(c, mat(c["input"]))
+        if c.get("stale"):
+            r["args"]["input_type"] = {"input": np.array([1, 100])}
+            r["args"]["output_type"] = {"output": np.array([2, 50])}
         res = try_build(r)
-        coq = f"(ConvG {cbuild(r, res)})"
+        coq = f"(ConvG {cbuild(r, res)})" if not c.get("stale") else None
         if res[0] != "ok":
             fail = f"{r['k']} construction raised {res[1]} for n={c['n']} p={c['padding']} d={c['d']} k={c['k']} s={c['s']}"
         else:
